@@ -222,7 +222,12 @@ func (c02) Eval(c *Chooser, env *Env) *Outcome {
 		w.API, w.Files, w.Cwd = APIRepo, []string{""}, mw.Repos[0].Root
 	}
 	// output mode
-	switch c.Int("world.outmode", 4) {
+	allKinds := false
+	switch c.Int("world.outmode", 5) {
+	case 4:
+		// the line template plus the rule table of the formatter (iterated from a map)
+		w.Opts.Format = "{{range $ := .}}{{$.Filepath}}:{{$.Line}}:{{$.Column}}: {{$.Message}} [{{$.Kind}}]\n{{end}}kinds {{range allKinds}}{{.Name}},{{end}}\n"
+		allKinds = true
 	case 1:
 		w.Opts.Oneline = true
 	case 2:
@@ -287,7 +292,9 @@ func (c02) Eval(c *Chooser, env *Env) *Outcome {
 		desc += ", second call on the same Linter instance"
 	case 7:
 		// the Linter instance has linted a repository of the world before (a long-lived library user)
-		if w.API != APIMain {
+		// (`allKinds` lists the rules registered on the instance so far - cumulative by design and
+		// not a diagnostic - so that template is left out of this variant)
+		if w.API != APIMain && !allKinds {
 			ro.ReuseLinter = true
 			ro.PriorRepo = mw.Repos[c.Int("world.priorrepo", len(mw.Repos))].Root
 			desc += ", on a Linter instance that linted repository " + ro.PriorRepo + " before"
